@@ -106,7 +106,20 @@ func BuildScratch(jobs []GenJob, race bool) (*Scratch, error) {
 	args = append(args, ".")
 	cmd := exec.Command("go", args...)
 	cmd.Dir = dir
-	cmd.Env = append(os.Environ(), "GOFLAGS=-mod=mod", "GOPROXY=off", "GOSUMDB=off", "GOTOOLCHAIN=local")
+	// The generated packages of a scratch module are never built twice: their objects go into a build cache of
+	// their own that is removed with the module (the user's cache would grow by gigabytes per sweep). It starts as a
+	// hard-linked copy of <verif>/.gocache, where bin/setup has compiled the standard library (plain and -race).
+	gocache, cerr := os.MkdirTemp("", "vgocache")
+	if cerr != nil {
+		return nil, cerr
+	}
+	defer os.RemoveAll(gocache)
+	if base := filepath.Join(Root(), ".gocache"); dirExists(base) {
+		if exec.Command("cp", "-al", base+"/.", gocache).Run() != nil {
+			exec.Command("cp", "-a", base+"/.", gocache).Run()
+		}
+	}
+	cmd.Env = append(os.Environ(), "GOFLAGS=-mod=mod", "GOPROXY=off", "GOSUMDB=off", "GOTOOLCHAIN=local", "GOCACHE="+gocache)
 	t0 = time.Now()
 	out, err := cmd.CombinedOutput()
 	Debugf("scratch: go build %.1fs", time.Since(t0).Seconds())
@@ -176,4 +189,9 @@ func (s *Scratch) Close() {
 	if s != nil && s.Dir != "" {
 		os.RemoveAll(s.Dir)
 	}
+}
+
+func dirExists(p string) bool {
+	st, err := os.Stat(p)
+	return err == nil && st.IsDir()
 }
